@@ -45,7 +45,8 @@ func heredocOracle(cx *lib.Ctx) {
 			case 4:
 				l.parts, l.interp = []string{"w", "x"}, []bool{true, false}
 			default:
-				l.parts, l.interp = []string{r.Pick([]string{"Foo", "bar baz", "x", "- item"})}, []bool{false}
+				// (in a heredoc a backslash, a quote, a lone $ or % are ordinary characters)
+				l.parts, l.interp = []string{r.Pick([]string{"Foo", "bar baz", "x", "- item", "\\", "a\\", "$\\", "%\\", "\\n", "100%", "a$b", "$", "%", "\"q\"", "\\\"", "c:\\dir\\", "\\$", "$\\$", "x \\ y"})}, []bool{false}
 			}
 			lines = append(lines, l)
 		}
